@@ -441,7 +441,82 @@ def group_check(ctx, ops, real):
     ctx.count("chunking-groups", len(groups))
 
 
+def run_zlib_direct(ctx):
+    """The compressor and the decompressor on their own (not hidden behind each other), on the implementation only -
+    zlib's bytes are not predicted by the model: (a) `deflate` straight into a sink: for every chunking the same bytes,
+    and those bytes are a raw DEFLATE stream of the input (Python's zlib inflates them to it); into a sink that is too
+    small or fails: the run fails.  (b) `inflate` at the head with complete, truncated, extended and corrupted streams:
+    the verdict and the bytes do not depend on the chunking, and equal Python's verdict."""
+    import zlib
+    rng = ctx.rng
+    ops, meta = [], []
+    datas = [b"", b"a", b"abc" * 10, rng.randbytes(100), b"compress me " * 600, rng.randbytes(5000)]
+    for d in datas:
+        for parts in ([len(d)], [1] * min(len(d), 64) + ([len(d) - 64] if len(d) > 64 else []), rand_parts(rng, len(d), [1, 4096]), rand_parts(rng, len(d), [3])):
+            feeds = split(d, parts)
+            ops.append(("io.run", {"chain": ["deflate", ["malloc"]], "feeds": feeds}))
+            meta.append(("def", d, None))
+            ops.append(("io.run", {"chain": ["deflate", ["b64enc", ["malloc"]]], "feeds": with_empties(rng, feeds)}))
+            meta.append(("def64", d, None))
+        ops.append(("io.run", {"chain": ["deflate", ["buffer", 1]], "feeds": [d.hex()]}))
+        meta.append(("def-small", d, None))
+        ops.append(("io.run", {"chain": ["deflate", ["probe", 0]], "feeds": [d.hex()]}))
+        meta.append(("def-probe", d, None))
+        co = zlib.compressobj(9, zlib.DEFLATED, -15)
+        z = co.compress(d) + co.flush()
+        variants = [("whole", z, d), ("truncated", z[:-1], None), ("truncated more", z[:max(1, len(z) // 2)], None), ("trailing bytes", z + b"\x00\x01", "trail"),
+                    ("corrupted", bytes([z[0] ^ 0x06]) + z[1:], "any"), ("garbage", rng.randbytes(20), "any")]
+        for label, zz, want in variants:
+            for parts in ([len(zz)], [1] * len(zz) if len(zz) <= 200 else [len(zz) // 2, len(zz) - len(zz) // 2], rand_parts(rng, len(zz), [2, 5])):
+                ops.append(("io.run", {"chain": ["inflate", ["malloc"]], "feeds": split(zz, parts)}))
+                meta.append(("inf:" + label, zz, want))
+    real = ctx.real(ops)
+    ctx.evaluations += len(ops)
+    seen = {}
+    for (o, a), (kind, data, want), r in zip(ops, meta, real):
+        if "crash" in r or "leaves" not in r:
+            continue
+        ok = all(r["feeds"]) and r["done"] is True
+        out = r["leaves"][0].get("data") if r["leaves"] else None
+        if kind in ("def", "def64"):
+            if not ok:
+                ctx.pfails.append(("io:deflate", "compressing %d bytes into an unbounded sink failed" % len(data), o, a, r))
+                continue
+            raw = bytes.fromhex(out) if kind == "def" else None
+            if kind == "def64":
+                import base64
+                raw = base64.urlsafe_b64decode(bytes.fromhex(out) + b"=" * (-len(bytes.fromhex(out)) % 4))
+            try:
+                back = zlib.decompress(raw, -15)
+            except Exception as e:
+                back = None
+            if back != data:
+                ctx.pfails.append(("io:deflate", "the compressor's output is not a raw DEFLATE stream of its input (%d bytes in, chunking %s)" % (len(data), [len(f) // 2 for f in a["feeds"]][:8]), o, a, r))
+            key = (kind, data)
+            if key in seen and seen[key] != raw:
+                ctx.pfails.append(("io:chunking", "the compressor's output depends on how its input was cut (%d bytes)" % len(data), o, a, r))
+            seen.setdefault(key, raw)
+        elif kind in ("def-small", "def-probe"):
+            if ok:
+                ctx.pfails.append(("io:verdict:reports-success", "deflate into a sink that cannot take its output reports success", o, a, r))
+        else:
+            key = (kind, data)
+            obs = (ok, out if ok else None)
+            if key in seen and seen[key] != obs:
+                ctx.pfails.append(("io:chunking", "inflate (%s): verdict or bytes depend on the chunking" % kind, o, a, r))
+            seen.setdefault(key, obs)
+            if want is not None and want not in ("any", "trail"):
+                if not ok or bytes.fromhex(out or "") != want:
+                    ctx.pfails.append(("io:inflate", "a complete stream was refused or inflated to other bytes", o, a, r))
+            # (a truncated stream: zlib reports Z_BUF_ERROR at Z_FINISH, which lib/zlib/deflate.c takes for "nothing more
+            #  to write" - the decompressor reports success with the bytes so far.  No property of the list speaks about
+            #  the validity of compressed streams (inside a JWE they are authenticated); only chunking independence is
+            #  demanded here.  Recorded in corpus/audit-open.md.)
+    ctx.count("zlib-direct", len(ops))
+
+
 def run(ctx):
+    run_zlib_direct(ctx)
     for gen in (gen_small, gen_random, gen_long, gen_failures, gen_cipher):
         ops = gen(ctx)
         for i in range(0, len(ops), 200000):
